@@ -117,6 +117,9 @@ static void run_purity(uint64_t idx, pv_rng* rng) {
     uint8_t script[19]; memcpy(script, m.secret, 19); script[18] |= (uint8_t)(pv_randn(rng, 4) << 6);
     pv_set_rand_script(script, 19);
     pv_w->time_value = pv_m_birthday_time(m.birthday) + pv_randn(rng, (uint32_t)PV_STEP);
+    /* created while the clock is beyond the 1024-month range, unset, broken or in other units: the phrase carries the birthday the
+     * seed reports (and nothing spills into the neighbouring feature bits) */
+    if (pv_randn(rng, 8) == 0) { uint64_t t = pv_gen_odd_clock(rng); pv_w->time_value = t; m.birthday = pv_m_birthday_of(t); PV_COUNT("purity.created_at_an_out_of_range_clock", 1); }
     polyseed_data* a = NULL;
     int st = pv_api_create(m.features, &a);
     pv_set_rand_prng();
